@@ -100,6 +100,18 @@ static char scenario_buf[64];
 static uint64_t n_preempt, n_forced, n_handoff, n_idlejump, n_fair;
 static void tso_flush_me(void);
 static void tso_maybe_flush(void);
+/* reach measurement (bin/reach): with SIM_COV=<file> every compiler hook marks its call site in a byte map
+ * shared by all runs of the batch; off by default, no effect on any decision */
+static uint8_t* covmap;
+static uintptr_t cov_base, cov_size;
+extern char __executable_start, etext;
+#define COV()                                                                  \
+  do {                                                                         \
+    if (covmap) {                                                              \
+      uintptr_t o_ = (uintptr_t)__builtin_return_address(0) - cov_base;        \
+      if (o_ < cov_size) covmap[o_] = 1;                                       \
+    }                                                                          \
+  } while (0)
 static void tso_commit_pending(void);
 static int tso_plain_store(const void* a, size_t n);
 static int n_stalled;
@@ -863,6 +875,7 @@ static void spin_hint_inner(void) {
   }
 }
 void fiber_verif_dwcas(volatile void* location) {
+  COV();
   sim_access((const void*)location, 16, K_DWCAS);
   tso_flush_me();
 }
@@ -987,15 +1000,15 @@ int __wrap_pthread_join(pthread_t th_, void** ret) {
 /* ------------------------------------------------------------------ */
 static void tso_plain(const void* a, size_t n, int is_write);
 #define RW(n)                                                                    \
-  void __tsan_read##n(void* a) { sim_access(a, n, K_PLAIN); tso_plain(a, n, 0); }                    \
-  void __tsan_write##n(void* a) { sim_access(a, n, K_PLAIN); if (!tso_plain_store(a, n)) tso_plain(a, n, 1); }                   \
-  void __tsan_unaligned_read##n(void* a) { sim_access(a, n, K_PLAIN); tso_plain(a, n, 0); }          \
-  void __tsan_unaligned_write##n(void* a) { sim_access(a, n, K_PLAIN); tso_plain(a, n, 1); }         \
-  void __tsan_volatile_read##n(void* a) { sim_access(a, n, K_PLAIN); tso_plain(a, n, 0); }           \
-  void __tsan_volatile_write##n(void* a) { sim_access(a, n, K_PLAIN); if (!tso_plain_store(a, n)) tso_plain(a, n, 1); }
+  void __tsan_read##n(void* a) { COV(); sim_access(a, n, K_PLAIN); tso_plain(a, n, 0); }                    \
+  void __tsan_write##n(void* a) { COV(); sim_access(a, n, K_PLAIN); if (!tso_plain_store(a, n)) tso_plain(a, n, 1); }                   \
+  void __tsan_unaligned_read##n(void* a) { COV(); sim_access(a, n, K_PLAIN); tso_plain(a, n, 0); }          \
+  void __tsan_unaligned_write##n(void* a) { COV(); sim_access(a, n, K_PLAIN); tso_plain(a, n, 1); }         \
+  void __tsan_volatile_read##n(void* a) { COV(); sim_access(a, n, K_PLAIN); tso_plain(a, n, 0); }           \
+  void __tsan_volatile_write##n(void* a) { COV(); sim_access(a, n, K_PLAIN); if (!tso_plain_store(a, n)) tso_plain(a, n, 1); }
 RW(1) RW(2) RW(4) RW(8) RW(16)
-void __tsan_write_range(void* a, long n) { sim_access(a, n > 0 ? n : 1, K_PLAIN); tso_plain(a, n > 0 ? n : 1, 1); }
-void __tsan_read_range(void* a, long n) { sim_access(a, n > 0 ? n : 1, K_PLAIN); tso_plain(a, n > 0 ? n : 1, 0); }
+void __tsan_write_range(void* a, long n) { COV(); sim_access(a, n > 0 ? n : 1, K_PLAIN); tso_plain(a, n > 0 ? n : 1, 1); }
+void __tsan_read_range(void* a, long n) { COV(); sim_access(a, n > 0 ? n : 1, K_PLAIN); tso_plain(a, n > 0 ? n : 1, 0); }
 void __tsan_func_entry(void* p) { (void)p; }
 void __tsan_func_exit(void) {}
 void __tsan_init(void) {}
@@ -1170,12 +1183,14 @@ static void tso_plain(const void* a, size_t n, int is_write) {
 #define AT(bits, TY)                                                                                             \
   TY __tsan_atomic##bits##_load(const volatile TY* a, int mo) {                                                  \
     (void)mo;                                                                                                    \
+    COV();                                                                                                       \
     sim_access((const void*)a, bits / 8, K_ALOAD);                                                               \
     uint64_t fw;                                                                                                 \
     if (tso_load((const volatile void*)a, bits / 8, &fw)) return (TY)fw;                                         \
     return __atomic_load_n(a, __ATOMIC_SEQ_CST);                                                                 \
   }                                                                                                              \
   void __tsan_atomic##bits##_store(volatile TY* a, TY v, int mo) {                                               \
+    COV();                                                                                                       \
     sim_access((const void*)a, bits / 8, K_ASTORE);                                                              \
     if (tso_store((volatile void*)a, (uint64_t)v, bits / 8, mo)) return;                                         \
     tso_flush_me();                                                                                              \
@@ -1183,42 +1198,49 @@ static void tso_plain(const void* a, size_t n, int is_write) {
   }                                                                                                              \
   TY __tsan_atomic##bits##_exchange(volatile TY* a, TY v, int mo) {                                              \
     (void)mo;                                                                                                    \
+    COV();                                                                                                       \
     sim_access((const void*)a, bits / 8, K_RMW);                                                                 \
     tso_flush_me();                                                                                              \
     return __atomic_exchange_n(a, v, __ATOMIC_SEQ_CST);                                                          \
   }                                                                                                              \
   TY __tsan_atomic##bits##_fetch_add(volatile TY* a, TY v, int mo) {                                             \
     (void)mo;                                                                                                    \
+    COV();                                                                                                       \
     sim_access((const void*)a, bits / 8, K_RMW);                                                                 \
     tso_flush_me();                                                                                              \
     return __atomic_fetch_add(a, v, __ATOMIC_SEQ_CST);                                                           \
   }                                                                                                              \
   TY __tsan_atomic##bits##_fetch_sub(volatile TY* a, TY v, int mo) {                                             \
     (void)mo;                                                                                                    \
+    COV();                                                                                                       \
     sim_access((const void*)a, bits / 8, K_RMW);                                                                 \
     tso_flush_me();                                                                                              \
     return __atomic_fetch_sub(a, v, __ATOMIC_SEQ_CST);                                                           \
   }                                                                                                              \
   TY __tsan_atomic##bits##_fetch_and(volatile TY* a, TY v, int mo) {                                             \
     (void)mo;                                                                                                    \
+    COV();                                                                                                       \
     sim_access((const void*)a, bits / 8, K_RMW);                                                                 \
     tso_flush_me();                                                                                              \
     return __atomic_fetch_and(a, v, __ATOMIC_SEQ_CST);                                                           \
   }                                                                                                              \
   TY __tsan_atomic##bits##_fetch_or(volatile TY* a, TY v, int mo) {                                              \
     (void)mo;                                                                                                    \
+    COV();                                                                                                       \
     sim_access((const void*)a, bits / 8, K_RMW);                                                                 \
     tso_flush_me();                                                                                              \
     return __atomic_fetch_or(a, v, __ATOMIC_SEQ_CST);                                                            \
   }                                                                                                              \
   TY __tsan_atomic##bits##_fetch_xor(volatile TY* a, TY v, int mo) {                                             \
     (void)mo;                                                                                                    \
+    COV();                                                                                                       \
     sim_access((const void*)a, bits / 8, K_RMW);                                                                 \
     tso_flush_me();                                                                                              \
     return __atomic_fetch_xor(a, v, __ATOMIC_SEQ_CST);                                                           \
   }                                                                                                              \
   TY __tsan_atomic##bits##_fetch_nand(volatile TY* a, TY v, int mo) {                                            \
     (void)mo;                                                                                                    \
+    COV();                                                                                                       \
     sim_access((const void*)a, bits / 8, K_RMW);                                                                 \
     tso_flush_me();                                                                                              \
     return __atomic_fetch_nand(a, v, __ATOMIC_SEQ_CST);                                                          \
@@ -1226,6 +1248,7 @@ static void tso_plain(const void* a, size_t n, int is_write) {
   int __tsan_atomic##bits##_compare_exchange_strong(volatile TY* a, TY* c, TY v, int mo, int fmo) {              \
     (void)mo;                                                                                                    \
     (void)fmo;                                                                                                   \
+    COV();                                                                                                       \
     sim_access((const void*)a, bits / 8, K_RMW);                                                                 \
     tso_flush_me();                                                                                              \
     return __atomic_compare_exchange_n(a, c, v, 0, __ATOMIC_SEQ_CST, __ATOMIC_SEQ_CST);                          \
@@ -1233,6 +1256,7 @@ static void tso_plain(const void* a, size_t n, int is_write) {
   int __tsan_atomic##bits##_compare_exchange_weak(volatile TY* a, TY* c, TY v, int mo, int fmo) {                \
     (void)mo;                                                                                                    \
     (void)fmo;                                                                                                   \
+    COV();                                                                                                       \
     sim_access((const void*)a, bits / 8, K_RMW);                                                                 \
     tso_flush_me();                                                                                              \
     return __atomic_compare_exchange_n(a, c, v, 0, __ATOMIC_SEQ_CST, __ATOMIC_SEQ_CST);                          \
@@ -1240,6 +1264,7 @@ static void tso_plain(const void* a, size_t n, int is_write) {
   TY __tsan_atomic##bits##_compare_exchange_val(volatile TY* a, TY c, TY v, int mo, int fmo) {                   \
     (void)mo;                                                                                                    \
     (void)fmo;                                                                                                   \
+    COV();                                                                                                       \
     sim_access((const void*)a, bits / 8, K_RMW);                                                                 \
     tso_flush_me();                                                                                              \
     __atomic_compare_exchange_n(a, &c, v, 0, __ATOMIC_SEQ_CST, __ATOMIC_SEQ_CST);                                \
@@ -1876,6 +1901,15 @@ int main(int argc, char** argv) {
     } else {
       fprintf(stderr, "usage: %s [--tier quick|thorough] (--seeds START COUNT | --replay FILE) [--dump] [--timeout-ms N]\n", argv[0]);
       return 2;
+    }
+  }
+  if (getenv("SIM_COV")) {
+    cov_base = (uintptr_t)&__executable_start;
+    cov_size = (uintptr_t)&etext - cov_base;
+    int cfd = open(getenv("SIM_COV"), O_RDWR | O_CREAT, 0644);
+    if (cfd >= 0 && ftruncate(cfd, (off_t)cov_size) == 0) {
+      void* m = mmap(NULL, cov_size, PROT_READ | PROT_WRITE, MAP_SHARED, cfd, 0);
+      if (m != MAP_FAILED) covmap = m;
     }
   }
   if (replay) {
